@@ -113,12 +113,15 @@ def _mask(r, shape, kind, dtype):
     n = 1
     for s in ms:
         n *= s
+    per = n // ms[0]          # every batch item keeps at least one sample (ncc/mi divide by the masked sum per item)
     if dtype == "bool":
         v = [r.random() < 0.6 for _ in range(n)]
-        v[r.randrange(n)] = True
+        for k in range(ms[0]):
+            v[k * per + r.randrange(per)] = True
         return torch.tensor(v, dtype=torch.bool).reshape(ms)
     v = [r.choice([0.0, 0.0, 0.25, 0.5, 1.0, 1.0]) for _ in range(n)]
-    v[r.randrange(n)] = 1.0
+    for k in range(ms[0]):
+        v[k * per + r.randrange(per)] = 1.0
     return torch.tensor(v, dtype=torch.float64).reshape(ms)
 
 
@@ -398,8 +401,8 @@ EPS = [1e-15, 1e-15, 2.0 ** -10, 0.5]
 def gen_ncc(rng, tier):
     for _ in range(_n(tier, 100, 1200)):
         shape = _shape(rng)
-        mk, md = _maskpick(rng, bad=False)
-        if rng.random() < 0.6:
+        mk, md = _maskpick(rng)
+        if rng.random() < 0.3:
             mk = None
         api = rng.choice(["fn", "fn", "module"])
         c = {"loss": "ncc", "api": api, "shape": shape, "mask": mk, "mdtype": md, "seed": _seed(rng),
@@ -662,12 +665,11 @@ def _mi_parts(x, y, mask, vmin, vmax, B):
     parts = {"cen": cen.flatten().tolist(), "tss": tss, "nrm": nrm, "exp": [], "log": []}
     try:
         xf, yf = x.flatten(2), y.flatten(2)
-        if mask is not None:
-            mm = mask.flatten(2)
-            xf, yf = xf.mul(mm), yf.mul(mm)
         ax = xf.sub(cen).square().div(tss).neg()
         ay = yf.sub(cen).square().div(tss).neg()
         pwx, pwy = ax.exp().mul(nrm), ay.exp().mul(nrm)
+        if mask is not None:
+            pwx = pwx.mul(mask.flatten(2))     # mi_loss @1067-1068: weight of each sample in the joint histogram
         hist = pwx.bmm(pwy.transpose(1, 2))
         norm = hist.flatten(1).sum(1).add(TINY)
         pj = hist / norm.view(-1, 1, 1)
@@ -743,7 +745,8 @@ STREAMS = [
     Stream("norm", gen_norm, impl_norm, line_norm, cmp_norm, nontrivial=lambda c: True,
            doc="NormalizedPairwiseImageLoss(source, target).norm == max_difference(...)^2"),
     Stream("ncc", gen_ncc, impl_ncc, line_ncc, cmp_ncc, nontrivial=_nontrivial,
-           doc="ncc_loss / NCC: eps, reductions, masks of every kind (the code rejects them all: compared as errors)"),
+           doc="ncc_loss / NCC: eps, reductions, masks of every documented kind x bool/float weights (weighted means, "
+               "centred images times mask) and malformed masks (rejections compared)"),
     Stream("lcc", gen_lcc, impl_lcc, line_lcc, cmp_lcc, nontrivial=_nontrivial,
            doc="lcc_loss / LCC: kernel sizes (int, tuple, > image, even, wrong length), eps, masks, reductions"),
     Stream("wlcc", gen_wlcc, impl_wlcc, line_wlcc, cmp_wlcc, nontrivial=_nontrivial,
@@ -918,7 +921,7 @@ def check_mask(c):
     z = me.double() == 0
     x2 = torch.where(z, torch.tensor(_values(r, x.numel(), "uniform", True), dtype=x.dtype).reshape(shape) * 7 - 3, x)
     y2 = torch.where(z, torch.tensor(_values(r, x.numel(), "uniform", True), dtype=x.dtype).reshape(shape) * 7 - 3, y)
-    pointwise = name in PW_FN or name in OVERLAP or scalar
+    pointwise = name in PW_FN or name in OVERLAP or scalar or name == "ncc_loss"
     if pointwise:
         kw2 = dict(kw)
         if scalar:
@@ -927,6 +930,16 @@ def check_mask(c):
         v2 = _call(name, x2, y2, mask=m, **rk, **kw2)
         if _maxabs(v - v2) > (1e-9 if name in PW_FN or scalar else _t32()):
             return (f"C16:{name}:mask-ignored", f"{name} changes by {_maxabs(v - v2):.3e} when samples with mask==0 change")
+    if name == "ncc_loss":
+        # the axioms of NCC also hold for its masked form: 0 on identical images, invariant under a*x+b
+        same = _call(name, x, x.clone(), mask=m, red="none")
+        if _maxabs(same) > 5e-4:
+            return ("C16:ncc_loss:identical-masked", f"ncc_loss(x, x, mask) = {same.flatten()[:4].tolist()}")
+        xa = _tensor(r, shape, "dyadic", True)
+        a, b = r.choice([-2.0, 0.5, 3.0]), r.choice([-1.0, 0.75, 4.0])
+        v0, v1 = _call(name, xa, y, mask=m, red="none"), _call(name, a * xa + b, y, mask=m, red="none")
+        if _maxabs(v0 - v1) > 1e-3:
+            return ("C16:ncc_loss:affine-masked", f"masked ncc_loss changes by {_maxabs(v0 - v1):.3e} under {a}*x+{b}")
     # (b) mean over the masked region / weighting of local scores
     if name in PW_FN or name in ("lcc_loss",):
         none = _call(name, x, y, red="none", **kw)
